@@ -141,12 +141,13 @@ def gen_config(rng, nargs, kinds=KINDS, features=True, prefix_family=True, posit
             if a.kind in ('s', 'vs') and rng.chance(1, 3):
                 which = rng.below(3)
                 if which == 0:
-                    a.checks.append(('values', 'abc', 'X0', 'b'))
+                    # a list of allowed values, compared exactly or without regard to case
+                    a.checks.append((rng.choice(['values', 'ivalues']), 'abc', 'X0', 'b'))
                 elif which == 1:
                     a.checks.append(('minlen', rng.range(1, 3)))
                 else:
                     a.checks.append(('maxlen', rng.range(2, 4)))
-            if a.kind in ('s', 'vs') and rng.chance(1, 5) and not any(c[0] == 'values' for c in a.checks):
+            if a.kind in ('s', 'vs') and rng.chance(1, 5) and not any(c[0] in ('values', 'ivalues') for c in a.checks):
                 a.fmt = rng.choice(['upper', 'lower'])
             if a.kind != 'b' and rng.chance(1, 6):
                 a.mand = True
@@ -238,23 +239,32 @@ def gen_value(rng, a, valid=True):
     # strings
     vals = None
     mn, mx = 0, 5
+    icase = False
     for c in a.checks:
-        if c[0] == 'values':
+        if c[0] in ('values', 'ivalues'):
             vals = list(c[1:])
+            icase = c[0] == 'ivalues'
         elif c[0] == 'minlen':
             mn = c[1]
         elif c[0] == 'maxlen':
             mx = c[1]
     if not valid:
         if vals:
-            return 'zz'
+            # not in the list: unrelated, an allowed value as a proper prefix / suffix, (exact list) other case
+            bad = ['zz', vals[0] + 'x', vals[0][:-1] if len(vals[0]) > 1 else 'q', 'y' + vals[-1]]
+            if not icase:
+                bad.append(vals[0].swapcase())
+            return rng.choice(bad)
         if mn > 0:
             return 'a' * (mn - 1)
         if mx < 5:
             return 'a' * (mx + 1)
         return ''
     if vals:
-        return rng.choice(vals)
+        v = rng.choice(vals)
+        if icase and rng.chance(1, 2):
+            v = ''.join(ch.upper() if rng.chance(1, 2) else ch.lower() for ch in v)
+        return v
     if a.kind == 's' and mn == 0 and rng.chance(1, 8):
         return ''                       # the empty string is a value like any other
     n = rng.range(max(mn, 1), max(mn, 1, mx))
@@ -916,6 +926,8 @@ def run_checks_py(a, v):
             if c[0] == 'range' and not (c[1] <= int(v) < c[2]):
                 return False
             if c[0] == 'values' and v not in c[1:]:
+                return False
+            if c[0] == 'ivalues' and v.lower() not in [x.lower() for x in c[1:]]:
                 return False
             if c[0] == 'minlen' and len(v) < c[1]:
                 return False
